@@ -490,6 +490,17 @@ def main():
             nfail = sum(1 for o in r['obligations'] if o['status'] == 'FAILURE' and o['kind'] != 'canary')
             print(f"[{r['unit']}] {r['status']} label={r['label']} obligations={len(r['obligations'])} failed={nfail} "
                   f"canaries={r.get('canaries_failed', 0)}/{r.get('canaries', 0)} {r['wall_s']}s [{r.get('formula','')}] {' ; '.join(r['notes'])[:600]}", flush=True)
+    # bounded companions: a unit with "fallback_for": "<unit>" (normally thorough tier only) is run in ANY tier when that unit could not
+    # be woven (extraction break: a loop under contract was removed or rewritten), so that the change is decided rather than left at exit 2
+    broken = {r['_unit']['name'] for r in results if r['status'] == 'extraction'}
+    if broken and not a.unit:
+        done_names = {u['name'] for u, _, _ in todo}
+        for u in units:
+            if u.get('fallback_for') in broken and u['name'] not in done_names:
+                for nm, inst in instances(u, tier):
+                    r = run_instance(u, nm, inst, tier, a.keep); r['_unit'] = u
+                    results.append(r)
+                    print(f"[{r['unit']}] (fallback for {u['fallback_for']}) {r['status']} label={r['label']} obligations={len(r['obligations'])} {r['wall_s']}s", flush=True)
     results.sort(key=lambda r: r['unit'])
     import replay as RP
     known, fixed = load_known()
